@@ -320,7 +320,10 @@ def run(pr, repo):
                                                            (C14.task_make_copy, ()), (C14.task_setup_and_add, ()),
                                                            # 'a cysteine in a disulfide bridge is reported as 99.99': every S-S
                                                            # pair within bonding distance is found, wherever it lies in the cell grid
-                                                           (C11.task_cell_lemma, ()), (C11.task_boxes_pair, ('S', 'S', False, (0,))), (task_summary_rows, ())]
+                                                           (C11.task_cell_lemma, ()), (C11.task_boxes_pair, ('S', 'S', False, (0,))), (task_summary_rows, ()),
+                                                           # 'in every conformation ... nothing that is not in the structure': completing a
+                                                           # conformation never merges two residue types at one position (C08-TU)
+                                                           (C08.task_topup, ())]
     pr.parallel(tasks)
     pr.assumptions += ['stutter/simulation rule lifts the per-record automaton to whole files; atom-name classes as listed in '
                        'props/reader.py', 'composition step "nothing else is reported" (bounded census monitor)',
